@@ -379,6 +379,7 @@ func sequence(r *ev.Run, c *ev.Case, seqNo int, mon *chalMon) {
 type stubHandler struct {
 	name      string
 	accept    bool
+	panics    bool
 	authCalls int
 	genCalls  int
 	log       *[]string
@@ -388,6 +389,9 @@ func (s *stubHandler) Name() string { return s.name }
 func (s *stubHandler) Authenticate(*csr.ReqParam) error {
 	s.authCalls++
 	*s.log = append(*s.log, "auth:"+s.name)
+	if s.panics {
+		panic("scripted panic in Authenticate")
+	}
 	if s.accept {
 		return nil
 	}
@@ -433,6 +437,48 @@ func handlerLists(r *ev.Run) {
 					r.Guard(c, "handler list", nil, func() { oneList(r, c, n, pat, realPos, realOK) })
 				}
 			}
+		}
+	}
+	// a handler whose Authenticate panics has not authenticated anybody: nothing may be generated or signed
+	for n := 1; n <= 3; n++ {
+		for pos := 0; pos < n; pos++ {
+			c := r.Case("handlers-panic", idx)
+			idx++
+			if c == nil {
+				continue
+			}
+			r.Eval(1)
+			r.Guard(c, "handler list with a panicking handler", nil, func() {
+				var log []string
+				var hs []gensign.Handler
+				var stubs []*stubHandler
+				for i := 0; i < n; i++ {
+					s := &stubHandler{name: fmt.Sprintf("stub%d", i), accept: i > pos, panics: i == pos, log: &log}
+					stubs = append(stubs, s)
+					hs = append(hs, s)
+				}
+				signer := &gsrig.Signer{}
+				err, escaped := gsrig.Run(gsrig.Param(gsrig.ParamSpec{LogName: "alice", ReqUser: "u", ReqHost: "h", ClientIP: "1.2.3.4", TransID: "0123456789", Policy: "NONS"}), hs, signer)
+				rec := map[string]any{"handlers": n, "panicking_position": pos, "log": log}
+				if escaped != "" {
+					r.Violation(c, "panic-escapes-run:handler-list", escaped, rec)
+					return
+				}
+				gens := 0
+				for _, s := range stubs[:pos+1] {
+					gens += s.genCalls
+				}
+				if stubs[pos].genCalls > 0 || (err == nil && gens > 0) {
+					r.Violation(c, "panicking-handler-treated-as-authenticated", fmt.Sprintf("err=%v log=%v", err, log), rec)
+					return
+				}
+				if err == nil && signer.NumCalls() > 0 && pos == n-1 {
+					r.Violation(c, "signing-after-authentication-panic", fmt.Sprintf("log=%v", log), rec)
+					return
+				}
+				r.Count("handler lists with a panicking handler judged", 1)
+				r.Nontrivial(fmt.Sprintf("panic-handler:%d:%d", n, pos))
+			})
 		}
 	}
 	r.Extra("handler_list_patterns", idx)
